@@ -353,18 +353,62 @@ def rule_r2(ctx: Ctx) -> None:
             ctx.ob("C02.R2", cn, cn.node, f"create_node({sym.name}): returns the generated value", ok_ret, why_ret)
             ctx.ob("C02.R3", cn, cn.node, f"create_node({sym.name}): forwards the sibling values to generate", ok_fwd, why_fwd)
     # ---- stack creator
-    stf = ctx.fn(STACK)
-    loops = [l for l in walk_local(stf.node) if isinstance(l, ast.For) and isinstance(l.iter, ast.Call) and call_name(l.iter) == "get_arguments"]
-    if len(loops) != 1:
+    stf0 = ctx.fn(STACK)
+    # the field loop: in the stack mapper itself or in a helper of the same module that it calls
+    cands = [stf0]
+    for c_ in walk_local(stf0.node, include_nested=True):
+        if isinstance(c_, ast.Call):
+            t_ = ctx.res.resolve(stf0, c_)
+            if t_.kind == "repo":
+                cands += [g for g in t_.targets if g.module is stf0.module and g not in cands]
+    stf = stf0
+    loops = []
+    for g in cands:
+        ls = [l for l in walk_local(g.node) if isinstance(l, ast.For) and isinstance(l.iter, ast.Call) and call_name(l.iter) == "get_arguments"]
+        if ls:
+            stf, loops = g, ls
+            break
+    body = None
+    if len(loops) == 1:
+        l = loops[0]
+        body = l.body
+    else:
+        # [helper(.., field_type) for _, field_type in get_arguments(t)]: the helper's body handles one field
+        for g in cands:
+            for lc in walk_local(g.node):
+                if isinstance(lc, (ast.ListComp, ast.GeneratorExp)) and len(lc.generators) == 1 and isinstance(lc.elt, ast.Call) \
+                        and any(isinstance(c_, ast.Call) and call_name(c_) == "get_arguments" for c_ in ast.walk(lc.generators[0].iter)):
+                    t_ = ctx.res.resolve(g, lc.elt)
+                    if t_.kind == "repo" and len(t_.targets) == 1:
+                        stf, l, body = t_.targets[0], t_.targets[0].node, t_.targets[0].node.body
+    if body is None:
         ctx.ob("C02.R2", stf, stf.node, "stack mapper: field loop", None, f"{len(loops)} loops over get_arguments")
         return
-    l = loops[0]
-    ifs = [s_ for s_ in l.body if isinstance(s_, ast.If)]
-    from ..dispatch import chain, classify
+    from ..astutil import may_fall_through
+    from ..dispatch import Branch, chain, classify
+    # the per-field dispatch as an ordered list of branches: if/elif chains, and guard clauses ('if T: ...; continue/raise/return'
+    # followed by the rest of the body, which then runs under 'not T')
+    brs_all: list = []
+    for k_, st_ in enumerate(body):
+        if not isinstance(st_, ast.If):
+            continue
+        ch = chain(st_)
+        if len(ch) >= 2 and any(b.form == "else" or True for b in ch) and (st_.orelse or len(ch) > 1):
+            brs_all += ch
+        else:
+            b0 = ch[0]
+            if not may_fall_through(b0.body):
+                if b0.negated:
+                    # if not <form>(t): raise/continue  ->  the rest of the body is the <form> branch
+                    brs_all.append(Branch(b0.form, b0.test, body[k_ + 1:], False))
+                else:
+                    brs_all.append(b0)
+            else:
+                brs_all.append(b0)
     done = False
-    for i_ in ifs:
-        brs = chain(i_)
-        forms = [b.form for b in brs]
+    if brs_all:
+        brs = brs_all
+        forms = [b.form if not b.negated else "neg:" + b.form for b in brs]
         if "annotated" in forms:
             done = True
             ai = forms.index("annotated")
@@ -372,7 +416,7 @@ def rule_r2(ctx: Ctx) -> None:
                             for s_ in brs[ai].body for c in ast.walk(s_))
             ctx.ob("C02.R2", stf, brs[ai].test, "stack mapper: refined fields take a value accepted by validate", validates,
                    "" if validates else "the refined branch does not consult the refinement")
-            earlier = [b for b in brs[:ai] if b.form.startswith("member:") or b.form in ("generic", "other", "registered")]
+            earlier = [b for b in brs[:ai] if not b.negated and (b.form.startswith("member:") or b.form in ("generic", "other", "registered"))]
             captured = None
             for b in earlier:
                 if b.form.startswith("member:") and _keys_include_annotated(ctx, stf, b):
@@ -384,7 +428,9 @@ def rule_r2(ctx: Ctx) -> None:
                    f"ones* (collect_types yields its argument before unwrapping): a refined field pops an unvalidated value from "
                    f"its own, never-filled stack or the refinement is never consulted (Annotated[int, IntRange(5, 9)] received 0)")
     if not done:
-        ctx.ob("C02.R2", stf, l, "stack mapper: annotated field types are refined", False,
+        mentions = any(isinstance(c_, ast.Call) and call_name(c_) in ("is_metahandler", "is_annotated") for b_ in l.body for c_ in ast.walk(b_))
+        ctx.ob("C02.R2", stf, l, "stack mapper: annotated field types are refined", None if mentions else False,
+               "the field loop tests for annotated types in a form the rule does not follow (guard clauses / helper)" if mentions else
                "no branch of the stack mapper's field loop handles annotated types")
 
 
@@ -396,6 +442,14 @@ def _keys_include_annotated(ctx: Ctx, stf: FunctionInfo, b) -> bool:
     defs = [a for a in walk_local(stf.node) if isinstance(a, (ast.Assign, ast.AnnAssign))
             and (a.targets[0] if isinstance(a, ast.Assign) else a.target).__class__ is ast.Name
             and (a.targets[0] if isinstance(a, ast.Assign) else a.target).id == cont.id]
+    if not defs and cont.id in stf.params:
+        # the container is a parameter of a helper: look at the stack mapper that builds it (same name by convention)
+        top = ctx.prog.functions.get(STACK)
+        if top is not None and top is not stf:
+            stf = top
+            defs = [a for a in walk_local(stf.node) if isinstance(a, (ast.Assign, ast.AnnAssign))
+                    and (a.targets[0] if isinstance(a, ast.Assign) else a.target).__class__ is ast.Name
+                    and (a.targets[0] if isinstance(a, ast.Assign) else a.target).id == cont.id]
     for d in defs:
         v = d.value
         if isinstance(v, ast.DictComp) and isinstance(v.generators[0].iter, ast.Name):
